@@ -25,6 +25,21 @@ Proof.
   rewrite (H x (or_introl eq_refl)). f_equal. apply IH. intros a Ha. apply H. right. exact Ha.
 Qed.
 
+Lemma filter_comm {A} (f g : A -> bool) l : filter f (filter g l) = filter g (filter f l).
+Proof.
+  induction l as [|x t IH]; simpl; [reflexivity|].
+  destruct (f x) eqn:Ef, (g x) eqn:Eg; simpl; rewrite ?Ef, ?Eg, IH; reflexivity.
+Qed.
+
+Lemma StronglySorted_filter {A} (R : A -> A -> Prop) (f : A -> bool) l :
+  StronglySorted R l -> StronglySorted R (filter f l).
+Proof.
+  induction l as [|x t IH]; intros H; simpl; [constructor|].
+  inversion H as [|? ? Ht Hx]; subst. destruct (f x); [|apply IH; exact Ht].
+  constructor; [apply IH; exact Ht|].
+  rewrite Forall_forall in *. intros y Hy. apply filter_In in Hy. apply Hx. tauto.
+Qed.
+
 Lemma firstn_In_incl {A} n (l : list A) x : In x (firstn n l) -> In x l.
 Proof.
   revert l. induction n as [|n IH]; intros l H; simpl in H; [destruct H|].
@@ -486,6 +501,50 @@ Lemma sort_NoDup t k asc m r : sort_members t k asc m = Some r -> NoDup m -> NoD
 Proof.
   intros H Hnd. apply sort_spec in H. destruct H as [Hp _].
   eapply Permutation_NoDup; eassumption.
+Qed.
+
+(* tuple keys *)
+Lemma sort2_form t k1 k2 asc m r :
+  sort2_members t k1 k2 asc m = Some r ->
+  r = isort (dir_le asc) (key_or0 t k1) (isort (dir_le asc) (key_or0 t k2) m).
+Proof.
+  unfold sort2_members. destruct (all_some _ m); [|discriminate]. intros H. inversion H. reflexivity.
+Qed.
+
+(* lexicographic: sorted by the first component; the members sharing a first component are sorted by the
+   second; members with the same pair keep their order; a permutation *)
+Lemma sort2_spec t k1 k2 asc m r :
+  sort2_members t k1 k2 asc m = Some r ->
+  let f1 := key_or0 t k1 in let f2 := key_or0 t k2 in
+  Permutation m r /\ key_sorted asc f1 r /\
+  (forall v, key_sorted asc f2 (filter (fun a => f1 a =? v) r)) /\
+  (forall v w, filter (fun a => f2 a =? w) (filter (fun a => f1 a =? v) r) =
+               filter (fun a => f2 a =? w) (filter (fun a => f1 a =? v) m)).
+Proof.
+  intros H f1 f2. apply sort2_form in H. subst r.
+  pose proof (dir_le_total asc) as Ht. pose proof (dir_le_trans asc) as Htr.
+  split; [|split; [|split]].
+  - etransitivity; [apply (isort_perm (dir_le asc) f2)|apply isort_perm].
+  - apply kle_key_sorted. apply isort_sorted; assumption.
+  - intros v. fold (has_key f1 v). rewrite (isort_stable (dir_le asc) f1 Ht).
+    apply kle_key_sorted. apply StronglySorted_filter. apply isort_sorted; assumption.
+  - intros v w. fold (has_key f1 v). rewrite (isort_stable (dir_le asc) f1 Ht).
+    rewrite filter_comm. fold (has_key f2 w). rewrite (isort_stable (dir_le asc) f2 Ht).
+    apply filter_comm.
+Qed.
+
+Lemma sort2_none t k1 k2 asc m :
+  sort2_members t k1 k2 asc m = None <->
+  exists a, In a m /\ (eval_key t k1 a = None \/ eval_key t k2 a = None).
+Proof.
+  unfold sort2_members.
+  destruct (all_some _ m) eqn:E.
+  - split; [discriminate|]. intros [a [Ha Hn]].
+    destruct (all_some_pointwise _ _ _ a E Ha) as [b Hb].
+    destruct (eval_key t k1 a), (eval_key t k2 a); destruct Hn; congruence.
+  - split; [|reflexivity]. intros _. apply all_some_none in E. destruct E as [a [Ha Hn]].
+    exists a. split; [exact Ha|]. destruct (eval_key t k1 a); [|left; reflexivity].
+    destruct (eval_key t k2 a); [discriminate|right; reflexivity].
 Qed.
 
 (* ------------------------------------------------------------------ 3. shuffle *)
@@ -1146,6 +1205,7 @@ Definition target (o : op) : option Z :=
   match o with
   | Select s _ _ _ inplace d => Some (if inplace then s else d)
   | Sort s _ _ inplace d => Some (if inplace then s else d)
+  | Sort2 s _ _ _ inplace d => Some (if inplace then s else d)
   | Shuffle s _ inplace d => Some (if inplace then s else d)
   | GroupGet _ _ _ d => Some d
   | Add s _ => Some s
@@ -1201,6 +1261,14 @@ Proof.
     + intros Hwf. eapply sort_NoDup; [exact Es|]. eapply Hwf. exact Em.
     + intros a Ha. left. exists s, m. split; [exact Em|].
       apply sort_spec in Es. destruct Es as [Hp _]. eapply Permutation_in; [symmetry; exact Hp|exact Ha].
+  - (* Sort2 *)
+    destruct (slot_get s (st_pool st)) as [m|] eqn:Em; [|same].
+    destruct (valid_slot d); simpl negb; cbv iota; [|same].
+    destruct (sort2_members (st_tbl st) k1 k2 asc m) as [r|] eqn:Es; [|same].
+    pose proof (sort2_spec _ _ _ _ _ _ Es) as [Hp _].
+    intros Hsr; eapply ShStore; [reflexivity|exact Hsr| |].
+    + intros Hwf. eapply Permutation_NoDup; [exact Hp|]. eapply Hwf. exact Em.
+    + intros a Ha. left. exists s, m. split; [exact Em|]. eapply Permutation_in; [symmetry; exact Hp|exact Ha].
   - (* Shuffle *)
     destruct (slot_get s (st_pool st)) as [m|] eqn:Em; [|same].
     destruct (valid_slot d); simpl negb; cbv iota; [|same].
@@ -1410,12 +1478,14 @@ Qed.
 Inductive reorder :=
 | RSelect (p : option pred) (am : atmost) (ty : option Z)
 | RSort (k : keyf) (asc : bool)
+| RSort2 (k1 k2 : keyf) (asc : bool)
 | RShuffle (outcome : list id).
 
 Definition mk_op (s : Z) (r : reorder) (inplace : bool) (d : Z) : op :=
   match r with
   | RSelect p am ty => Select s p am ty inplace d
   | RSort k asc => Sort s k asc inplace d
+  | RSort2 k1 k2 asc => Sort2 s k1 k2 asc inplace d
   | RShuffle o => Shuffle s o inplace d
   end.
 
@@ -1424,6 +1494,7 @@ Definition transform (t : table) (r : reorder) (m : list id) : tres :=
   match r with
   | RSelect p am ty => match select_members t p am ty m with Some x => TOk x | None => TErr end
   | RSort k asc => match sort_members t k asc m with Some x => TOk x | None => TErr end
+  | RSort2 k1 k2 asc => match sort2_members t k1 k2 asc m with Some x => TOk x | None => TErr end
   | RShuffle o => if perm_check o m then TOk o else TIllegal
   end.
 
@@ -1440,6 +1511,7 @@ Proof.
   destruct r; unfold mk_op, step, transform; cbv zeta; rewrite Hm, Hd; simpl negb; cbv iota.
   - destruct (select_members (st_tbl st) p am ty m); reflexivity.
   - destruct (sort_members (st_tbl st) k asc m); reflexivity.
+  - destruct (sort2_members (st_tbl st) k1 k2 asc m); reflexivity.
   - destruct (perm_check outcome m); reflexivity.
 Qed.
 
@@ -2057,21 +2129,6 @@ Qed.
 
 (* --- filtering commutes with the stable sort: select (no limit) of a sorted set = sort of the
    selected set --- *)
-Lemma filter_comm {A} (f g : A -> bool) l : filter f (filter g l) = filter g (filter f l).
-Proof.
-  induction l as [|x t IH]; simpl; [reflexivity|].
-  destruct (f x) eqn:Ef, (g x) eqn:Eg; simpl; rewrite ?Ef, ?Eg, IH; reflexivity.
-Qed.
-
-Lemma StronglySorted_filter {A} (R : A -> A -> Prop) (f : A -> bool) l :
-  StronglySorted R l -> StronglySorted R (filter f l).
-Proof.
-  induction l as [|x t IH]; intros H; simpl; [constructor|].
-  inversion H as [|? ? Ht Hx]; subst. destruct (f x); [|apply IH; exact Ht].
-  constructor; [apply IH; exact Ht|].
-  rewrite Forall_forall in *. intros y Hy. apply filter_In in Hy. apply Hx. tauto.
-Qed.
-
 Lemma filter_isort_comm {A} (le : Z -> Z -> bool) (kf : A -> Z) (f : A -> bool) l :
   (forall a b, le a b = true \/ le b a = true) ->
   (forall a b c, le a b = true -> le b c = true -> le a c = true) ->
@@ -2376,3 +2433,9 @@ Proof.
   - intros -> -> Hne. unfold members in Hm. unfold step. cbv zeta. rewrite Hm, Hk.
     destruct (zlen (groupby_members (key_or0 (st_tbl st) k) m) =? 0) eqn:E; [exfalso; apply Hne; apply Hz; reflexivity|reflexivity].
 Qed.
+
+Lemma group_map_values t rt gm g :
+  (forall r, group_map t rt gm g = Some r ->
+     r = flat_map (fun e => fst e :: match gm_apply t rt gm (snd e) with Some vs => vs | None => [] end) g) /\
+  (group_map t rt gm g = None <-> exists e, In e g /\ gm_apply t rt gm (snd e) = None).
+Proof. split; [apply group_map_some|apply group_map_none]. Qed.
